@@ -122,6 +122,10 @@ func vfModifyCut(sched int) {
 		case 2:
 			st.recvErr = errors.New("transport failure")
 		}
+		// a dying transport usually fails in both directions: the pending responses cannot be written either
+		if st.recvErr != nil && vfBool("sends-fail-too") {
+			st.sendFailAt = vfInt("send-fail-at", 0, 4)
+		}
 	}
 	if sched > 0 {
 		vfSched(sched)
